@@ -4,10 +4,10 @@ Require Import Value Bytes GenBimg BimgModel BimgProofs.
 Import ListNotations.
 Local Open Scope Z_scope.
 
-(* C14: on a layout without floating segment a positive init offset snaps to the closest segment start at or above it and
-   is refused (SPSDK error) beyond the last segment. *)
+(* C14: on EVERY layout (with or without a floating segment) a positive init offset snaps to the closest segment start at or
+   above it -- floating segments do not count -- and is refused (SPSDK error) beyond the last fixed segment. *)
 Theorem init_offset_snaps :
-  forall t r, static_table t -> 0 < r ->
+  forall t r, 0 < r ->
   match set_init t r with
   | Ok io => (exists s, In s (segs t) /\ fo s = io) /\ r <= io /\ (forall s, In s (segs t) -> r <= fo s -> io <= fo s)
   | Err k => k = 1%N /\ forall s, In s (segs t) -> fo s < r
